@@ -11,12 +11,13 @@ BASELINE_CMD = ("cd /repo && /venv/bin/python -m pytest -ra -q -p no:cacheprovid
 # id -> (category, technique, text, level_note, design_ref)
 CHECKS = {}
 NOT_APPLICABLE = {
-    "C01": "Round-trip equality quantifies over runtime values of composed codecs; no necessary structural clause "
-           "beyond what C03 (loader/dumper path agreement) already reports.",
-    "C16": "Type-variable substitution runs over runtime typing objects and user class hierarchies; the only "
-           "structural ingredient would be a frozen restatement of seven introspectors.",
-    "C17": "Cross-kind uniformity is a relation between introspection results on third-party classes; the available "
-           "layering lint is not a necessary condition of the behaviour.",
+    "C01": "Round-trip equality quantifies over runtime values of composed codecs (what a dumper emits for a value and what "
+           "the loader makes of it); the structural ingredients in reach are reported under other properties (C03: loader "
+           "and dumper of one layout use the same path per field; C18: enum/flag mappings are inverse; C02: documented "
+           "outer forms) and do not add up to a necessary condition worth a separate claim.",
+    "C16": "Type-variable substitution runs over runtime typing objects and user class hierarchies; a source-level rule "
+           "would be a frozen restatement of the resolver. (The tier-G technique used for C17 -- reading from the compiled "
+           "output which loader function is bound per field -- could decide a clause of it; not built.)",
 }
 
 
@@ -30,7 +31,7 @@ def load_table():
 
 def main():
     checks, pending = load_table()
-    na = dict(NOT_APPLICABLE)
+    na = {k: v for k, v in NOT_APPLICABLE.items() if k not in checks}
     for pid, reason in pending.items():
         if pid not in checks:
             na[pid] = reason
